@@ -203,7 +203,9 @@ void do_detect(gsim::Op op)
 void do_bad_index(gsim::Op op)
 {
     if (!S->is_static) return;
-    unsigned idx = 4u + (unsigned)(op.a % 4);
+    // just past the end, and values that turn negative / wrap if somebody converts them
+    static const unsigned big[] = {0x7fffffffu, 0x80000000u, 0xffffffffu, 0x80000004u};
+    unsigned idx = (op.b & 2) ? big[op.a % 4] : 4u + (unsigned)(op.a % 4);
     bool threw = false;
     try {
         if (op.b & 1) {
@@ -254,7 +256,7 @@ void run()
                     triggered[line] = true;
                     gsim::prog_add(t, {OP_TRIGGER, line, gsim::gen_int(30), gsim::gen_int(3)});
                 } else if (st.is_static && gsim::gen_int(8) == 0) {
-                    gsim::prog_add(t, {OP_BAD_INDEX, gsim::gen_int(4), gsim::gen_int(2), 0});
+                    gsim::prog_add(t, {OP_BAD_INDEX, gsim::gen_int(4), gsim::gen_int(4), 0});
                 } else {
                     gsim::prog_add(t, {OP_DETECT, line, gsim::gen_int(6), gsim::gen_int(3) | (gsim::gen_int(3) == 0 ? 4 : 0)});
                 }
